@@ -143,6 +143,10 @@ class OracleMixin:
         self.sit["end." + t.outcome] += 1
 
     def on_cancel_seen(self, t, where):
+        if t.seen > t.owed and where == "cb" and t.extra_ok > 0:
+            t.extra_ok -= 1
+            t.owed += 1
+            self.sit["cancel_seen_in_cb_after_abandoned_flush"] += 1
         if t.seen > t.owed:
             self.violate("C06.bystander", f"task {t.tid} observed a CancelledError ({where}) it was not owed (seen {t.seen}, owed {t.owed})")
             if t.pool.group_cancels:
@@ -293,7 +297,7 @@ class OracleMixin:
             if pr.size_changed:
                 self.sit["C15.idle_after_assign"] += 1
         # map work conservation
-        if pr.cb_in_progress == 0 and pr.L < pr.cap() and not pr.size_changed:
+        if pr.cb_in_progress == 0 and pr.L < pr.cap():
             for rq in pr.live_groups.values():
                 if rq.kind in MAPKINDS and rq.accepted:
                     remain = (not rq.exhausted) if rq.observable_pulls else (rq.meta is not None and not rq.meta.done())
@@ -364,6 +368,15 @@ class OracleMixin:
     def on_flush_done(self, pr, f):
         pr.flush_count += 1
         e = f.raised
+        if f.abandoned:
+            # its caller was cancelled: whatever it forgot or not is undetermined for the tasks it had collected
+            for t in pr.tasks.values():
+                if t.forget == "kept" and (t.complete or t.tid in f.must):
+                    t.forget = "maybe"
+            for tid in f.must:
+                if pr.tasks[tid].forget != "forgotten":
+                    pr.tasks[tid].forget = "maybe"
+            return
         if e is not None:
             if f.rex:
                 self.violate("C13.no_raise", f"flush(return_exceptions=True) raised {type(e).__name__}: {e}")
@@ -455,6 +468,8 @@ class OracleMixin:
                 if pr.closed:
                     self.violate("C08.waiters", "until_closed() waiter still pending although the pool is closed")
             elif kind == "gac":
+                if pr.size == 0 and self.pending_work(pr):
+                    continue  # the size was set to 0 while it waits: nothing may start, so it (correctly) keeps waiting
                 self.violate("C08.progress", f"gather_and_close of pool {pr.idx} still pending at final quiescence with every gate open")
             elif kind == "flush":
                 self.violate("C13.progress", f"flush of pool {pr.idx} still pending at final quiescence with every gate open")
@@ -497,6 +512,7 @@ class OracleMixin:
                 self.delivery_violation(t, f"task {tid} still has an undelivered cancellation at the end")
             if not t.begun and not t.unbegun_cancelled and not stuck_ok:
                 self.violate("C02.end_cb_once", f"task {tid} was created, never cancelled, and never began")
+                self.violate("C04.lost_invocation", f"task {tid} was created for an invocation, was never cancelled, and its coroutine never began")
         if pr.closed and after_close:
             self.check_nothing_after(pr)
             for w in self.waiters:
